@@ -264,6 +264,23 @@ def run(rep, tier):
            "validate_plan refuses a handle bound twice and a handle that is never bound", vpl.file + ":%d" % vpl.line)
 
     # ------------------------------------------------------------------ R16.4
+    # handle resolution is per clause: the set that receives a clause's WHERE variables is rebuilt for every clause, so a variable
+    # bound by one clause's WHERE is not a binding for the next clause (a handle nobody creates would resolve)
+    vp = prog.fn(KML + "::validate_plan")
+    cw = vp.calls_named(r"::collect_where_variables$")
+    heads = [e.block for e in vp.calls_named(r"Iterator>?::next$")]
+    ok, why = bool(cw), "anchor: collect_where_variables is not called from validate_plan"
+    for w in cw:
+        encl = [h for h in heads if vp.dominates(h, w.block) and vp.can_reach([w.block], [h])]
+        clones = [o[1] for o in vp.slice_back_op(w.args[1], through=lambda ev: False) if o[0] == "call" and re.search(r"clone::Clone>?::clone$", o[1].name or "")]
+        if not encl or not clones:
+            ok, why = False, "the set given to collect_where_variables is not a per-clause copy of the plan's handles"
+            continue
+        inner = [h for h in encl if not any(h2 != h and vp.dominates(h, h2) for h2 in encl)][0]
+        if not all(vp.dominates(inner, c.block) and vp.can_reach([c.block], [inner]) for c in clones):
+            ok, why = False, "the set that receives a clause's WHERE variables is created outside the loop over the clauses: bindings accumulate from clause to clause"
+    rep.ob("R16.3", "where-bindings-scoped-to-their-clause|validate_plan", ok, why, cw[0].where() if cw else vp.file + ":%d" % vp.line)
+
     rep.rule("R16.4", "update guard reached from the Update arm; immutable/protected tables referenced only by their guards; text-path combinators apply the protected-field test too; the kind scan covers every clause", floor=7)
     R = region(arms.get("Update", ()))
     gu = [e for e in vc.calls_named(r"kml::guard_update$") if e.block in R]
@@ -382,6 +399,20 @@ def run(rep, tier):
                 none_to_fail += 1
     rep.ob("R16.5", "actor-and-mode-required|assert_statement", strs == {"by", "mode"} and none_to_fail >= 2,
            "the `by` and `mode` members are looked up and their absence returns a parse failure (%d refusing None edges)" % none_to_fail, af.file + ":%d" % af.line)
+    # the ASSERT member test and the expansion agree on what a member name is: both compare exactly.  A membership test that folds
+    # case admits `Stance:` / `CONFIDENCE:` while the exact lookups of the expansion never find them - the member the author wrote
+    # is silently dropped (worst case: `Stance: "reject"` expands with the default stance "support")
+    asf = prog.fn(KML + "::assert_statement")
+    folds = [e for g in [asf] + prog.closures_of(asf) for e in g.calls()
+             if re.search(r"eq_ignore_ascii_case|to_lowercase|to_ascii_lowercase|to_uppercase|to_ascii_uppercase|make_ascii_lowercase|make_ascii_uppercase", e.name or "")]
+    uses_table = any((core.op_const(o) or {}).get("def", "").endswith("::ASSERT_MEMBERS") for g in [asf] + prog.closures_of(asf)
+                     for b in g.live_blocks() for st in g.stmts(b) if st[0] == "A" for o in core._rvalue_operands(st[2])) or \
+        any((core.op_const(a) or {}).get("def", "").endswith("::ASSERT_MEMBERS") for g in [asf] + prog.closures_of(asf)
+            for b in g.live_blocks() if g.term(b)["k"] == "call" for a in g.term(b)["args"])
+    rep.ob("R16.5", "member-names-compared-exactly|assert_statement", uses_table and not folds,
+           "ASSERT member names are matched with a case-folding comparison (%s) while the expansion looks members up exactly: a member spelled in "
+           "another case is accepted and then dropped" % sorted({e.name.rsplit("::", 1)[1] for e in folds}) if folds else
+           "anchor: assert_statement no longer consults ASSERT_MEMBERS", folds[0].where() if folds else asf.file + ":%d" % asf.line)
     return rep.finish(EXPLAIN)
 
 
